@@ -871,8 +871,30 @@ func newTermSyncFacts() {
 	}
 }
 
+// streamFacts: the client's write stream wrapper matches responses to requests by position; a request whose
+// caller has given up keeps its place in the queue
+func streamFacts() {
+	f := parse("oxia/internal/write_stream.go")
+	sd := funcDecl(f, "streamWrapper", "Send")
+	hr := funcDecl(f, "streamWrapper", "handleResponses")
+	sb, hb := "", ""
+	if sd != nil {
+		sb = squash(src(sd.Body))
+	}
+	if hr != nil {
+		hb = squash(src(hr.Body))
+	}
+	ok := strings.Contains(sb, "sw.pendingRequests = append(sw.pendingRequests, f)") &&
+		strings.HasSuffix(sb, "sw.Unlock() return f.Wait(ctx) }") &&
+		strings.Count(sb, "sw.pendingRequests") == 2 &&
+		strings.Contains(hb, "f, sw.pendingRequests = sw.pendingRequests[0], sw.pendingRequests[1:] sw.Unlock() f.Complete(response)")
+	add("writeStreamKeepsTimedOutRequests", "Bool", boolLean(ok), "oxia/internal/write_stream.go: (*streamWrapper).Send, handleResponses",
+		"Send appends the request's future and returns the result of waiting for it, without touching the queue again; every response completes the head of the queue")
+}
+
 func moreFacts() {
 	newTermSyncFacts()
+	streamFacts()
 	walFacts()
 	codecFacts()
 	dbFacts()
